@@ -2,6 +2,7 @@ package props
 
 import (
 	"context"
+	"errors"
 	"fmt"
 	"testing"
 	"testing/synctest"
@@ -563,4 +564,95 @@ func TestC12_InstantReply(t *testing.T) {
 		}
 	}
 	c12instant.rec.Class("grid: tries 1..4 × try of the reply × accepted/rejected × request shapes")
+}
+
+// ---- C11: a transmission that fails ---------------------------------------------------------------
+
+type c11WriteFail struct {
+	V6      bool `json:"v6"`
+	T       int  `json:"timeout_ticks"`
+	Tries   int  `json:"tries"`
+	FailTry int  `json:"fail_try"` // the transmission of this try (0-based) fails with a socket error
+	Variant int  `json:"variant"`
+}
+
+// c11writefail: injected fault — the socket refuses one transmission (network unreachable). The call ends there and
+// then with an error (it is neither a response nor the no-response outcome), its transaction id is free again at that
+// very instant (a second call with the same id is accepted and gets its response), Close returns and nothing is left.
+var c11writefail = newChk("C11", "write-failure",
+	"fault injection under virtual time: the scripted socket fails the transmission of try k; the call must return an error at T×(2^k−1) after k successful transmissions, a second call reusing the transaction id at that instant is accepted and returns the response delivered to it, Close returns and the bubble drains; non-trivial = every case; distinct by case hash",
+	func(rec *obs.Rec, c c11WriteFail) *obs.Fail {
+		name := "nclient4"
+		if c.V6 {
+			name = "nclient6"
+		}
+		tick := time.Millisecond
+		var err1, err2 string
+		var at1, serial2 int
+		var nil2 bool
+		sent := 0
+		prob := inBubble(curT, func() {
+			var ad cliAdapter = &v4Adapter{}
+			if c.V6 {
+				ad = &v6Adapter{}
+			}
+			conn := netsim.New(64)
+			boom := errors.New("network is unreachable")
+			conn.WriteErr = func(n int) error {
+				if n == c.FailTry {
+					return boom
+				}
+				return nil
+			}
+			conn.OnWrite = func(w netsim.Write) { sent++ }
+			if err := ad.start(conn, time.Duration(c.T)*tick, c.Tries, false); err != nil {
+				panic(err)
+			}
+			types := wantTypes(c.V6)
+			req, _ := ad.request(1, c.Variant)
+			_, _, _, _, err := ad.call(context.Background(), req, func(serial, t int) bool { return t == types[0] }, false)
+			err1, at1 = ad.classify(err), int(conn.Since()/tick)
+			// the same transaction id again, at once
+			req2, _ := ad.request(1, c.Variant)
+			done := make(chan struct{})
+			go func() {
+				defer close(done)
+				s, _, isNil, _, err := ad.call(context.Background(), req2, func(serial, t int) bool { return t == types[0] }, false)
+				serial2, nil2, err2 = s, isNil, ad.classify(err)
+			}()
+			synctest.Wait()
+			conn.Deliver(ad.datagram(dgGood, 1, types[0], 99, 2, 0, 0), ad.dest())
+			<-done
+			_ = ad.close()
+		})
+		if prob != "" {
+			return obs.Failf("C11/"+name+"/write-failure/panic-or-leak", "both calls return and Close leaves nothing behind", "%s", clipS(prob))
+		}
+		wantAt := c.T * ((1 << uint(c.FailTry)) - 1)
+		if err1 == "nil" || err1 == "no-response" || err1 == "xid-in-use" {
+			return obs.Failf("C11/"+name+"/write-failure/outcome", "the call fails with the socket's error", "%s at tick %d", err1, at1)
+		}
+		if at1 != wantAt || sent < c.FailTry {
+			return obs.Failf("C11/"+name+"/write-failure/return-instant", fmt.Sprintf("error at tick %d after %d successful transmissions", wantAt, c.FailTry), "tick %d after %d", at1, sent)
+		}
+		if err2 != "nil" || nil2 || serial2 != 99 {
+			return obs.Failf("C11/"+name+"/write-failure/id-not-reusable", "a second call with the same transaction id is accepted at once and returns its response", "%s (serial %d)", err2, serial2)
+		}
+		rec.Class(name)
+		rec.NonTrivial(obs.HashJSON(c), func() any { return c })
+		return nil
+	})
+
+func TestC11_WriteFailure(t *testing.T) {
+	curT = t
+	for _, v6 := range []bool{false, true} {
+		for tries := 1; tries <= 4; tries++ {
+			for k := 0; k < tries; k++ {
+				for variant := 0; variant < 3; variant++ {
+					c11writefail.one(t, c11WriteFail{V6: v6, T: 16 * (1 + variant), Tries: tries, FailTry: k, Variant: variant})
+				}
+			}
+		}
+	}
+	c11writefail.rec.Class("grid: tries 1..4 × failing try × request shapes")
 }
